@@ -280,6 +280,9 @@ def run(ctx, prop):
 
     for k, res in sorted(results.items()):
         f, why = runfam[k]
+        if res['status'] == 'skipped':
+            ctx.cov['runs_skipped_after_hangs'] = ctx.cov.get('runs_skipped_after_hangs', 0) + 1
+            continue
         if res['status'] != 'ok':
             flt = res.get('fault') or {}
             ctx.violation('%s:%s:%s' % (prop, res['status'], flt.get('op', '')), {'run': runs[k - 1], 'fault': flt, 'schedule': res.get('schedule')},
